@@ -133,6 +133,12 @@ def step (d : DS) (toks : List String) : Option (DS × String) :=
       | [dn, amt] => (parseNat amt).map (fun a => (dn, a))
       | _ => none)
     some (d, toString (backingOK pools bals))
+  | ["chk", "c13.forcedstate", _tag, ps, ms] => do
+    let pools ← parseAll parsePool ((stripPrefix ps "P=").getD "?")
+    let mtps ← parseAll parseMtp ((stripPrefix ms "M=").getD "?")
+    match mtps with
+    | [m] => some (d, toString (forcedStateOK (withObserved d pools mtps) m))
+    | _ => none
   | ["chk", "c13.forced", _tag, h, sf] => do some (d, toString (forcedOK (← parseDec h) (← parseDec sf)))
   | ["chk", "c13.closer", _tag, signer, owner, adm] => do some (d, toString (closerOK signer owner (← parseB adm)))
   | ["chk", "c13.pair", _tag, coll, cust] => some (d, toString (pairOK { (default : Mtp) with coll := coll, cust := cust }))
